@@ -134,11 +134,11 @@ func init() {
 		PKCE: 10, Bad: 12, ShortLives: 25, MinOps: 8, MaxOps: 28, Smuggle: 10, Hybrid: 12, Implicit: 8, JWT: 15, ClientLife: 30}
 	mk := func(id string, f func(p *Profile)) Profile { p := base; p.Name = id; f(&p); return p }
 	common := "seeded histories over authorize/redeem/refresh/revoke/introspect/advance/setclient with 2-4 clients, every access/refresh token probed after every step; distinct by operation list; non-trivial = "
-	regHist(&histProp{id: "C01", profile: mk("C01", func(p *Profile) {}), module: "Cases.Monitors", checkFn: "check_C01", quickN: 300, thoroN: 4000,
+	regHist(&histProp{id: "C01", profile: mk("C01", func(p *Profile) {}), module: "Cases.Monitors", checkFn: "check_C01", quickN: 500, thoroN: 5000,
 		nontriv: func(h *HHistory, obs []HObs) bool { return hasReplay(h, obs, "redeem") },
 		rule:    common + "contains a second presentation of a code that was redeemed successfully"})
 	regHist(&histProp{id: "C02", profile: mk("C02", func(p *Profile) { p.WRedeem = 40; p.WRefresh = 8; p.Bad = 35; p.ShortLives = 60; p.Smuggle = 40; p.WAdvance = 14 }),
-		module: "Cases.Monitors", checkFn: "check_C02", quickN: 300, thoroN: 4000,
+		module: "Cases.Monitors", checkFn: "check_C02", quickN: 500, thoroN: 5000,
 		nontriv: func(h *HHistory, obs []HObs) bool {
 			for i, op := range h.Ops {
 				if op.Kind == "redeem" && op.Tok.Ref >= 0 && !op.Tok.Tamper && obs[i].Err != "" && obs[i].Err != "invalid_client" {
@@ -149,7 +149,7 @@ func init() {
 		},
 		rule: common + "contains a refused redemption attempt of an issued code by an authenticated client (foreign client, other redirect_uri, expired, replay)"})
 	regHist(&histProp{id: "C03", profile: mk("C03", func(p *Profile) { p.PKCE = 90; p.PkceFlags = true; p.WRedeem = 45; p.WRefresh = 5; p.WRevoke = 2; p.Bad = 25; p.WAdvance = 3 }),
-		module: "Cases.Monitors", checkFn: "check_C03", quickN: 300, thoroN: 5000,
+		module: "Cases.Monitors", checkFn: "check_C03", quickN: 500, thoroN: 6000,
 		nontriv: func(h *HHistory, obs []HObs) bool {
 			att := map[int]int{}
 			for _, op := range h.Ops {
@@ -164,11 +164,11 @@ func init() {
 		},
 		rule: common + "contains at least two redemption attempts on one code under randomised PKCE enforcement flags"})
 	regHist(&histProp{id: "C04", profile: mk("C04", func(p *Profile) { p.WRefresh = 40; p.WRedeem = 18; p.MaxOps = 36 }),
-		module: "Cases.Monitors", checkFn: "check_C04", quickN: 300, thoroN: 4000,
+		module: "Cases.Monitors", checkFn: "check_C04", quickN: 500, thoroN: 5000,
 		nontriv: func(h *HHistory, obs []HObs) bool { return hasReplay(h, obs, "refresh") },
 		rule:    common + "contains a second presentation of a refresh token that was exchanged successfully"})
 	regHist(&histProp{id: "C05", profile: mk("C05", func(p *Profile) { p.WRefresh = 30; p.WSetClient = 10; p.Smuggle = 40; p.Bad = 22; p.WDeviceAuth, p.WDecide, p.WDevicePoll, p.WPassword = 12, 14, 18, 8; p.WRedeem = 16; p.NoRefreshScopes, p.NoRefreshGrant = 25, 20 }),
-		module: "Cases.Monitors", checkFn: "check_C05", quickN: 300, thoroN: 4000,
+		module: "Cases.Monitors", checkFn: "check_C05", quickN: 500, thoroN: 5000,
 		nontriv: func(h *HHistory, obs []HObs) bool {
 			seenSet := false
 			for i, op := range h.Ops {
@@ -187,7 +187,7 @@ func init() {
 		p.WAuthorize, p.WPassword, p.WClientCreds, p.WPush, p.WAuthorizePAR, p.WDeviceAuth, p.WDecide, p.WDevicePoll = 20, 12, 8, 8, 6, 8, 6, 6
 		p.WRefresh, p.WRedeem, p.WSetClient, p.WRevoke, p.WAdvance = 16, 14, 12, 2, 3
 		p.Hybrid, p.Implicit, p.Bad = 20, 20, 8
-	}), module: "Cases.Monitors", checkFn: "check_C12H", quickN: 300, thoroN: 4000,
+	}), module: "Cases.Monitors", checkFn: "check_C12H", quickN: 500, thoroN: 5000,
 		nontriv: func(h *HHistory, obs []HObs) bool {
 			for i, op := range h.Ops {
 				switch op.Kind {
@@ -201,11 +201,11 @@ func init() {
 		},
 		rule: common + "contains a request with scopes/audience that an endpoint refused as not covered (invalid_scope / invalid_request)"})
 	regHist(&histProp{id: "C07", profile: mk("C07", func(p *Profile) { p.ShortLives = 85; p.WAdvance = 26; p.WIntrospect = 8; p.ClientLife = 60; p.WSetClient = 5; p.WPassword = 8; p.WClientCreds = 4 }),
-		module: "Cases.Monitors", checkFn: "check_C07", quickN: 300, thoroN: 4000,
+		module: "Cases.Monitors", checkFn: "check_C07", quickN: 500, thoroN: 5000,
 		nontriv: expiryObserved,
 		rule:    common + "some token is active before a clock advance and inactive right after it (an expiry was crossed)"})
 	regHist(&histProp{id: "C08", profile: mk("C08", func(p *Profile) { p.WRevoke = 30; p.Bad = 40 }),
-		module: "Cases.Monitors", checkFn: "check_C08", quickN: 300, thoroN: 4000,
+		module: "Cases.Monitors", checkFn: "check_C08", quickN: 500, thoroN: 5000,
 		nontriv: func(h *HHistory, obs []HObs) bool {
 			for i, op := range h.Ops {
 				if op.Kind == "revoke" && op.Tok.Ref >= 0 && obs[i].Err == "" && i > 0 && op.Tok.Ref < len(obs[i-1].Probes) && obs[i-1].Probes[op.Tok.Ref] != nil {
@@ -216,7 +216,7 @@ func init() {
 		},
 		rule: common + "contains an accepted revocation of a token that was active just before"})
 	regHist(&histProp{id: "C09", profile: mk("C09", func(p *Profile) { p.WIntrospect = 18; p.WIntrospectEP = 22; p.WRevoke = 12 }),
-		module: "Cases.Monitors", checkFn: "check_C09", quickN: 300, thoroN: 4000,
+		module: "Cases.Monitors", checkFn: "check_C09", quickN: 500, thoroN: 5000,
 		nontriv: func(h *HHistory, obs []HObs) bool {
 			act, inact := false, false
 			for _, o := range obs {
@@ -234,7 +234,7 @@ func init() {
 	regHist(&histProp{id: "C16", profile: mk("C16", func(p *Profile) { p.Contract = 35;
 		p.WAuthorize, p.WRedeem, p.WRefresh, p.WRevoke, p.WPassword, p.WPush, p.WAuthorizePAR = 3, 3, 8, 3, 1, 0, 0
 		p.WDeviceAuth, p.WDecide, p.WDevicePoll, p.WAdvance, p.Bad, p.ShortLives = 16, 16, 34, 10, 32, 45
-	}), module: "Cases.Monitors", checkFn: "check_C16", quickN: 300, thoroN: 5000,
+	}), module: "Cases.Monitors", checkFn: "check_C16", quickN: 500, thoroN: 6000,
 		nontriv: func(h *HHistory, obs []HObs) bool {
 			polls := 0
 			for _, op := range h.Ops {
@@ -248,7 +248,7 @@ func init() {
 	regHist(&histProp{id: "C17", profile: mk("C17", func(p *Profile) {
 		p.WAuthorize, p.WRedeem, p.WRefresh, p.WRevoke, p.WPassword, p.WDeviceAuth, p.WDecide, p.WDevicePoll = 6, 18, 3, 2, 1, 0, 0, 0
 		p.WPush, p.WAuthorizePAR, p.WAdvance, p.Bad, p.ShortLives, p.ParEnforce, p.PKCE = 22, 34, 10, 22, 50, 30, 55
-	}), module: "Cases.Monitors", checkFn: "check_C17", quickN: 300, thoroN: 5000,
+	}), module: "Cases.Monitors", checkFn: "check_C17", quickN: 500, thoroN: 6000,
 		nontriv: func(h *HHistory, obs []HObs) bool {
 			uses := 0
 			for _, op := range h.Ops {
